@@ -105,7 +105,7 @@ PROPS = {
             "verbatim blocks are not generated, and {# #} comments only between two non-whitespace characters of a text (next to a marker or a block tag neither C06 nor C15 decides what 'directly' means)",
             "two- and three-level hierarchies (extends + block override, nested block) are generated since the options are applied along the whole chain of parents (fix c.f. known_findings C04)",
             "which characters beyond space/tab/CR/LF a '-' takes is left open (C15.sides only demands that both sides agree with what each does alone and that only Unicode whitespace goes)",
-            "spaceless: an HTML tag is '<', characters other than newline, '>' (the engine's own notion, pinned by spaceless.tpl)",
+            "spaceless: an HTML tag is '<', characters, '>'; whether a tag may contain a line break (HTML: yes, the engine's regexp: no) is left open - both results are accepted",
         ],
     },
     "C16": {
